@@ -75,6 +75,7 @@ func c12Adv(c c12Case) []byte {
 func c12One(c c12Case, r *rep.R) (string, string) {
 	cfg := defaultConfig()
 	cfg.CipherSuiteData = c12Adv(c)
+	cfg.FollowUnknownAlgs = true
 	w := newWorld(cfg, nil, nil)
 	if c.First != nil {
 		var fp []ipmi.CipherSuite
@@ -266,6 +267,25 @@ func runC12(r *rep.R) {
 			}
 		}
 	}
+	// every value of each 6-bit algorithm field, the other two as proposed
+	for _, p := range []int{0, 1, 2} {
+		want := c12Universe[p]
+		for v := 0; v < 64; v++ {
+			for axis := 0; axis < 3; axis++ {
+				ann := want
+				switch axis {
+				case 0:
+					ann.Auth = byte(v)
+				case 1:
+					ann.Integ = byte(v)
+				default:
+					ann.Conf = byte(v)
+				}
+				a := ann
+				do(c12Case{Prefs: []int{p}, Adv: 0xF, Announce: &a})
+			}
+		}
+	}
 	// part B': zero-length (wildcard) algorithm payloads in the response
 	for _, p := range []int{0, 1, 2} {
 		for wc := 1; wc < 8; wc++ {
@@ -307,7 +327,7 @@ func runC12(r *rep.R) {
 	}
 	r.Bound("preference_lists", len(lists))
 	r.Bound("advertised_subsets", 16)
-	r.Bound("response_triples", 150)
+	r.Bound("response_triples", "150 over {0,1,2,3,(4),0x3F}^3 plus all 64 values of each field with the other two as proposed")
 	r.Assume("the BMC follows through with the algorithms it announced, so a library that silently accepts a changed triple is observed succeeding")
 	r.Assume("suites with None integrity/confidentiality may be refused with an error (C01/C12 allow it)")
 }
